@@ -145,14 +145,20 @@ func verilogMach(m *procbuilder.Machine, dir string) (res string) {
 	if err := os.MkdirAll(dir, 0o755); err != nil {
 		return "mkdir:" + err.Error()
 	}
+	// Conproc.Write_verilog drops extra files (threadStack<N>stack.v, …) into the current directory
+	cwd, _ := os.Getwd()
+	if err := os.Chdir(dir); err != nil {
+		return "chdir:" + err.Error()
+	}
+	defer os.Chdir(cwd)
 	conf := new(procbuilder.Config)
 	ri := new(procbuilder.RuntimeInfo)
 	ri.Init()
 	conf.Runinfo = ri
 	names := map[string]string{"processor": "p0", "rom": "p0rom", "ram": "p0ram"}
-	writeFile(filepath.Join(dir, "arch.v"), []byte(m.Arch.Write_verilog("a0", names, "iverilog")))
-	writeFile(filepath.Join(dir, "p0.v"), []byte(m.Arch.Conproc.Write_verilog(conf, &m.Arch, "p0", "iverilog")))
-	writeFile(filepath.Join(dir, "p0rom.v"), []byte(m.Arch.Rom.Write_verilog(m, "p0rom", "iverilog")))
+	writeFile("arch.v", []byte(m.Arch.Write_verilog("a0", names, "iverilog")))
+	writeFile("p0.v", []byte(m.Arch.Conproc.Write_verilog(conf, &m.Arch, "p0", "iverilog")))
+	writeFile("p0rom.v", []byte(m.Arch.Rom.Write_verilog(m, "p0rom", "iverilog")))
 	return "ok"
 }
 
